@@ -15,7 +15,11 @@ import time
 
 VERIF = os.path.dirname(os.path.dirname(os.path.abspath(__file__)))
 REPO = '/repo'
-SCRATCH = os.environ.get('SEED_SCRATCH', '/tmp/seedeval')
+SCRATCH = os.environ.get('SEED_SCRATCH', '/var/tmp/seedeval')
+
+
+# the repository's tests write to fixed /tmp paths: give every run a private /tmp (mount namespace)
+PYTEST = "unshare -rm sh -c 'mount -t tmpfs tmpfs /tmp && /venv/bin/python -m pytest -q -p no:cacheprovider tests 2>&1'"
 
 
 def sh(cmd, cwd=None, env=None, timeout=3600):
@@ -46,7 +50,7 @@ def evaluate(seed_dir, extra_checks=()):
             return res
         env = dict(os.environ, PYTHONPATH=wt)
         # private /tmp for the repository tests is not available; run them sequentially
-        rc, out = sh('/venv/bin/python -m pytest -q -p no:cacheprovider tests 2>&1 | tail -3', cwd=wt, timeout=1200)
+        rc, out = sh(PYTEST + ' | tail -3', cwd=wt, timeout=1200)
         res['repo_tests'] = out.strip().splitlines()[-1] if out.strip() else ''
         res['repo_tests_pass'] = ' passed' in out and 'failed' not in out
         rc, out = sh(f'timeout 600 /venv/bin/python {seed_dir}/demo.py', cwd=wt, env=env)
